@@ -84,7 +84,10 @@ fn sizes_event(out: &mut Out, ncw: usize, r: usize, pat: &[bool]) {
 
 fn gf(b: bool) -> GF2 { if b { GF2::one() } else { GF2::zero() } }
 
-fn noise_run(out: &mut Out, c: &Cfg, ebn0_db: f32, salt: u64, rng: &mut Rng, nllr: usize) {
+/// `first`: when given, the run is a SWEEP over two Eb/N0 points [first, ebn0_db] and the event describes the SECOND point (its
+/// frames are those of the decoders built for it): the noise level must be that of each requested point, not of the first one
+fn noise_run(out: &mut Out, c: &Cfg, ebn0_db: f32, salt: u64, rng: &mut Rng, nllr: usize) { noise_run2(out, c, None, ebn0_db, salt, rng, nllr) }
+fn noise_run2(out: &mut Out, c: &Cfg, first: Option<f32>, ebn0_db: f32, salt: u64, rng: &mut Rng, nllr: usize) {
     let rows = systematic_code(c.ncw, c.r, salt);
     let k = c.ncw - c.r;
     let (plen, ptr) = match &c.pat { Some(p) => (p.len(), p.iter().filter(|&&b| b).count()), None => (1, 1) };
@@ -98,13 +101,20 @@ fn noise_run(out: &mut Out, c: &Cfg, ebn0_db: f32, salt: u64, rng: &mut Rng, nll
     let (rows2, pat, psk8, il, ncw, sh2) = (rows.clone(), c.pat.clone(), c.psk8, c.il, c.ncw, sh.clone());
     let res = with_timeout(120, move || {
         let b = BerTestBuilder { h: matrix(&rows2, ncw), decoder_implementation: ScriptedFactory { shared: sh2, script }, modulation: if psk8 { ModSel::Psk8 } else { ModSel::Bpsk },
-            puncturing_pattern: pat.as_deref(), interleaving_columns: il, max_frame_errors: frames, max_iterations: 1, ebn0s_db: &[ebn0_db], reporter: None, bch_max_errors: 0 };
+            puncturing_pattern: pat.as_deref(), interleaving_columns: il, max_frame_errors: frames, max_iterations: 1, ebn0s_db: &(match first { Some(f) => vec![f, ebn0_db], None => vec![ebn0_db] }), reporter: None, bch_max_errors: 0 };
         b.build().map_err(|e| e.to_string())?.run().map_err(|e| e.to_string())
     });
     let res = match res { Some(r) => r, None => { out.ev("Noise", "hang", json!({"cfg": cj})); return; } };
     if let Err(m) = &res { out.ev("Noise", "panic", json!({"cfg": cj, "msg": m})); return; }
     if let Ok(Err(e)) = &res { out.ev("Noise", "error", json!({"cfg": cj, "msg": e})); return; }
-    let eng = sh.llr_stats.lock().unwrap().clone();
+    let mut eng = sh.llr_stats.lock().unwrap().clone();
+    if first.is_some() {
+        // moments of the second point only: the decoders of the second half of the build order
+        let by = sh.llr_by_dec.lock().unwrap();
+        let w = sh.built.load(std::sync::atomic::Ordering::SeqCst) / 2;
+        let second = LlrStats::merged(by.iter().filter(|(id, _)| **id >= w).map(|(_, s)| s));
+        eng.n = second.n; eng.sum_abs = second.sum_abs; eng.sum_sq = second.sum_sq; eng.sum = second.sum; eng.sum_lag1 = second.sum_lag1; eng.n_lag1 = second.n_lag1;
+    }
     // reference chain: sigma from the formula of Chain.tla / the statement, public modulator + own Gaussian + public demodulator
     let ebn0 = 10f64.powf(0.1 * f64::from(ebn0_db));
     let rate = k as f64 / n as f64;
@@ -207,6 +217,10 @@ pub fn generate(a: &Args) {
         Cfg { ncw: 27, r: 12, psk8: true, pat: None, il: None },
         Cfg { ncw: 20, r: 8, psk8: true, pat: Some(vec![true, true, true, false]), il: None },
     ];
+    // sweeps over two points in one run, judged at the second point
+    for (ci, c) in noise_cfgs.iter().enumerate().filter(|(ci, _)| ci % 4 == 0 || th) {
+        noise_run2(&mut out, c, Some(if ci % 2 == 0 { 1.0 } else { 8.0 }), 4.5, (a.seed ^ 0xC12).wrapping_mul(1000003) + 500 + ci as u64, &mut rng, nllr);
+    }
     for (ci, c) in noise_cfgs.iter().enumerate() {
         // the code (salt) of each noise run depends on the seed and the configuration only
         for (di, db) in [2.0f32, 6.0].into_iter().enumerate() { noise_run(&mut out, c, db, (a.seed ^ 0xC12).wrapping_mul(1000003) + (ci * 2 + di) as u64, &mut rng, nllr); }
